@@ -1,5 +1,6 @@
 import Nstd.Future.LiveGlue
 import Nstd.Future.LiveJoin
+import Nstd.Future.LiveShutdown
 /-
   Composition of the side theorems of deadlock freedom (repaired code, well-formed configurations).
 -/
@@ -20,5 +21,14 @@ theorem no_stuck_while_a_worker_lives_of_shutdown {cfg : Config} {s : State} (hr
     (hwf : cfg.WellFormed) (hs : ShutdownSide cfg) (h : Reach cfg s) (hw : ∃ w, liveWorker s w) :
     ∃ t, enabled s t = true :=
   no_stuck_while_a_worker_lives_of hrep (joinSide_holds hrep hwf) hs h hw
+
+theorem shutdownSide_holds {cfg : Config} (hrep : cfg.repaired = true) : ShutdownSide cfg :=
+  fun _ h hd => no_stuck_shutdown_side hrep h hd
+
+/-- THE REPAIRED SYSTEM IS NEVER DEADLOCKED WHILE A WORKER THREAD IS ALIVE (every schedule, any number of threads,
+    any capacity; each future used by one client thread) -/
+theorem no_stuck_while_a_worker_lives {cfg : Config} {s : State} (hrep : cfg.repaired = true) (hwf : cfg.WellFormed)
+    (h : Reach cfg s) (hw : ∃ w, liveWorker s w) : ∃ t, enabled s t = true :=
+  no_stuck_while_a_worker_lives_of hrep (joinSide_holds hrep hwf) (shutdownSide_holds hrep) h hw
 
 end Nstd.Future
